@@ -91,6 +91,12 @@ func VerifyFunc(pr *Prog, eff *Effects, fi *FuncInfo, opts VerifyOpts) (rep *Fun
 			if f := x.typeFacts(v, et); !f.IsTrue() {
 				st.assume(f)
 			}
+			switch v.Sort {
+			case SRef:
+				st.assume(Or(Eq(v, TNull), Sel(x.initial(allocKey, ArrSort(SRef, SBool)), v)))
+			case SSlice:
+				st.assume(Or(Eq(SArr(v), IntLit(0)), Sel(x.initial(arrAllocKey, ArrSort(SInt, SBool)), SArr(v))))
+			}
 			fr.refParams[p] = PVar{key, et}
 			continue
 		}
